@@ -16,7 +16,7 @@ VARIABLE l
 tvars == <<pool, ghost, calls, l>>
 
 
-AxesOf(ev) == [a \in 1..Len(ev.axes) |-> [tmin |-> ev.axes[a][1], count |-> ev.axes[a][2]]]
+AxesOf(ev) == [a \in 1..Len(ev.axes) |-> [tmin |-> ev.axes[a][1], count |-> ev.axes[a][2], grid |-> a]]
 ContOf(ev) == {<<t[1], t[2], t[3]>> : t \in {ev.cont[i] : i \in 1..Len(ev.cont)}}
 BatchOf(ev) == [i \in 1..Len(ev.cells) |-> <<ev.cells[i], "M", ev.ws[i]>>]
 
